@@ -1128,7 +1128,7 @@ theorem fault_get_in_unit_interval (c : FaultCfg) (id : Nat) :
     unfold clampBits
     simp only
     split
-    · left; assumption
+    · left; decide
     · split
       · right; decide
       · split
